@@ -22,7 +22,12 @@ type Sched struct {
 	// Hot marks storage operations at which a preemption is especially
 	// interesting (e.g. between reading a journal HEAD and writing the next
 	// entry); there the switch probability is 2/3.
-	Hot     func(op StorageOp) bool
+	Hot func(op StorageOp) bool
+	// ForceAt > 0: systematic single-preemption exploration -- client 0 is
+	// preempted exactly once, right before its ForceAt-th storage operation, and
+	// the other clients run to completion before it resumes; no random switches.
+	ForceAt int
+	count0  int
 	started bool
 }
 
@@ -66,6 +71,21 @@ func (s *Sched) HookFor(client int) func(StorageOp) error {
 			s.cond.Wait()
 		}
 		s.Trace = append(s.Trace, client)
+		if s.ForceAt > 0 {
+			if client == 0 {
+				s.count0++
+				if s.count0 == s.ForceAt {
+					if o := s.pickOther(client); o >= 0 {
+						s.cur = o
+						s.cond.Broadcast()
+						for s.cur != client {
+							s.cond.Wait()
+						}
+					}
+				}
+			}
+			return nil
+		}
 		num, den := s.Num, s.Den
 		if s.Hot != nil && s.Hot(op) {
 			num, den = 2, 3
